@@ -248,13 +248,26 @@ def generate(ctx):
     nsim = 1500 if quick else 40000
     nproc = 1 if quick else min(8, vlib.JOBS)
 
+    def mc(module, cfg, workers, heap):
+        """vlib.tlc_mc, repeated when the JVM was killed from outside (kernel OOM killer on a crowded machine)"""
+        for attempt in range(3):
+            r = vlib.tlc(ctx, module, cfg, workers=min(workers, vlib.JOBS), heap=heap, timeout=3000,
+                         extra=['-coverage', '1' if quick else '120'])
+            if not r['completed'] and r['rc'] in (137, -9) and not r['invariant_violations'] and not r['errors']:
+                vlib.log('C06: TLC on %s was killed (rc=%s), attempt %d' % (module, r['rc'], attempt + 1))
+                time.sleep(15)
+                continue
+            break
+        if r['invariant_violations'] or r['errors'] or not r['completed']:
+            raise vlib.Infra('design-level model checking of %s/%s did not pass (rc=%s):\n%s' % (module, cfg, r['rc'], r['out'][-3000:]))
+        ctx.add_mc(r)
+        return r
+
     def job_machine():
-        return vlib.tlc_mc(ctx, 'XmlMachine', 'XmlMachine_quick.cfg' if quick else 'XmlMachine_thorough.cfg',
-                           workers=6 if quick else 16, heap='3g' if quick else '16g', timeout=3000)
+        return mc('XmlMachine', 'XmlMachine_quick.cfg' if quick else 'XmlMachine_thorough.cfg', 6 if quick else 16, '3g' if quick else '5g')
 
     def job_attr():
-        return vlib.tlc_mc(ctx, 'XmlAttr', 'XmlAttr_quick.cfg' if quick else 'XmlAttr_thorough.cfg', workers=3 if quick else 8,
-                           heap='2g' if quick else '8g', timeout=3000)
+        return mc('XmlAttr', 'XmlAttr_quick.cfg' if quick else 'XmlAttr_thorough.cfg', 3 if quick else 8, '2g' if quick else '4g')
 
     def job_sim(w):
         rs = vlib.tlc(ctx, 'XmlMachine', 'XmlMachine_sim.cfg', workers=1, simulate='num=%d' % (nsim // nproc), depth=40,
@@ -273,6 +286,17 @@ def generate(ctx):
         ra = fa.result()
         outs = [f.result() for f in fs]
     vlib.log('C06: TLC on XmlMachine, XmlAttr, simulation %.0fs' % (time.time() - t0))
+    # per-action coverage of the design models: an action that never fired would make the model vacuous there
+    actions = {}
+    for out in (r['out'], ra['out']):
+        for m in re.finditer(r'^<(\w+) line \d+, col \d+ to line \d+, col \d+ of module (XmlMachine|XmlAttr)>: (\d+):(\d+)', out, re.M):
+            actions['%s.%s' % (m.group(2), m.group(1))] = int(m.group(4))
+    dead = [a for a, n in actions.items() if n == 0]
+    expected = ['XmlMachine.' + a for a in ('Gen', 'Start', 'StepText', 'StepCDATAEmpty', 'StepCDATA', 'StepComment', 'StepVerbatim',
+                                           'StepStart', 'StepVoid', 'StepEnd', 'StepEOF')] + ['XmlAttr.Gen', 'XmlAttr.Rewrite']
+    if dead or any(a not in actions for a in expected):
+        raise vlib.Infra('design model action without coverage: %r / %r' % (dead, [a for a in expected if a not in actions]))
+    ctx.coverage['design_action_coverage'] = actions
     if take(r['out'], 'mc', 'mc_known_skipped') == 0:
         raise vlib.Infra('XmlMachine emitted no behaviours')
     ctx.coverage['design_states_XmlMachine'] = r['distinct']
